@@ -47,7 +47,10 @@ func (n *Node) ModelToken() (string, bool) {
 	switch n.Kind {
 	case "localdisk":
 		return "files", true // Pk.Files.filesImpl: directory tree + the pruned recursive walk
-	case "mem", "diskpacked":
+	case "diskpacked":
+		// Pk.DiskPacked.diskpackedImpl: pack bytes + index rows, roll-over at maxFileSize (0 = default)
+		return fmt.Sprintf("diskpacked %d", n.Max), true
+	case "mem":
 		return "mem", true
 	case "memcache":
 		return fmt.Sprintf("memcache %d", n.Max), true
